@@ -362,13 +362,30 @@ pub fn run(args: &Args) {
     ev.assume("separate-process runs are covered by the fixed-seed determinism of the in-process runs plus the cross-process replay in the thorough tier; hash seeds differ between the twin stores of one run already (RandomState per map)");
     let kf = Known::load(args);
     let configs = all_configs();
+    // compact_adjacency() reports every compaction on stderr (tens of thousands of lines per
+    // run): silence fd 2 while cases run, restore it for our own messages
+    let saved_err = unsafe { libc::dup(2) };
+    unsafe {
+        let devnull = libc::open(b"/dev/null\0".as_ptr() as *const libc::c_char, libc::O_WRONLY);
+        if devnull >= 0 && saved_err >= 0 {
+            libc::dup2(devnull, 2);
+            libc::close(devnull);
+        }
+    }
+    let restore_err = move || unsafe {
+        if saved_err >= 0 {
+            libc::dup2(saved_err, 2);
+        }
+    };
     if let Some(p) = &args.replay {
         let case = Case::from_json(&load_replay(p));
         ev.case();
         ev.sample(case.to_json());
         ev.nontrivial(&"replay");
         ev.nontrivial(&render_query(&case.q));
-        match judge(&case, &configs, &Active::default()) {
+        let verdict = judge(&case, &configs, &Active::default());
+        restore_err();
+        match verdict {
             Verdict::Violation(m) => {
                 report_violation(&mut ev, &case.to_json(), &m);
             }
@@ -403,25 +420,11 @@ pub fn run(args: &Args) {
         ev.case();
         ev.class("regression_corpus");
         if let Verdict::Violation(m) = judge(&case, &configs, &active) {
+            restore_err();
             report_violation(&mut ev, &case.to_json(), &format!("{m} (corpus {})", p.display()));
             finish(&ev);
         }
     }
-    // compact_adjacency() reports every compaction on stderr (tens of thousands of lines per
-    // run): silence fd 2 while the search runs, restore it for our own messages
-    let saved_err = unsafe { libc::dup(2) };
-    unsafe {
-        let devnull = libc::open(b"/dev/null\0".as_ptr() as *const libc::c_char, libc::O_WRONLY);
-        if devnull >= 0 && saved_err >= 0 {
-            libc::dup2(devnull, 2);
-            libc::close(devnull);
-        }
-    }
-    let restore_err = move || unsafe {
-        if saved_err >= 0 {
-            libc::dup2(saved_err, 2);
-        }
-    };
     let n = std::env::var("VERIF_CASES").ok().and_then(|s| s.parse().ok()).unwrap_or(args.tier.pick(6_000u32, 200_000u32));
     let survey = survey_limit();
     let evc = RefCell::new(&mut ev);
